@@ -108,12 +108,13 @@ func admissionCheck(r *vk.Run, c *vk.Case, cfg immunitycache.CacheConfig, rng *v
 func main() {
 	_ = logger.SetLogLevel("*:NONE")
 	r := vk.Start("C27")
-	r.Rule("per case one configuration over NumChunks {1,2,3,7,16,128} x MaxNumItems 4..40 x MaxNumBytes 4..4000 x evict 1..10 (mostly not multiples of the chunk count; some invalid to exercise Verify); for accepted ones: admission check on a fresh cache (4x capacity fresh keys, none immune) and a random history of HasOrAdd/Put, ImmunizeKeys (present and future keys, single and batches), Remove, Clear, Get over 30..80 keys with the per-chunk invariants read through VerifChunkStats after every operation. A case is non-trivial when its history saw at least one eviction with an immune item present; distinct = (chunk count, divisibility class, set of events seen). concurrent phase: many short rounds, each with a roomy accepted configuration, 1..3 immunizer goroutines calling ImmunizeKeys on batches of 1..6 keys while 1..4 adder goroutines HasOrAdd/Put exactly those keys (one adder and one ImmunizeKeys call per key; sometimes a remover and a phantom immunizer that uses up the immune-key budget), then a flood of 3x capacity fresh keys per chunk; a round is non-trivial when both orders (immunized when present / for the future) were observed")
+	r.Rule("per case one configuration over NumChunks {1,2,3,7,16,128} x MaxNumItems 4..40 x MaxNumBytes 4..4000 x evict 1..10 (mostly not multiples of the chunk count; some invalid to exercise Verify); for accepted ones: admission check on a fresh cache (4x capacity fresh keys, none immune) and a random history of HasOrAdd/Put, ImmunizeKeys (present and future keys, single and batches), Remove, Clear, Get over 30..80 keys with the per-chunk invariants read through VerifChunkStats after every operation. A case is non-trivial when its history saw at least one eviction with an immune item present; distinct = (chunk count, divisibility class, set of events seen). concurrent phase: many short rounds, each with a roomy accepted configuration, 1..3 immunizer goroutines calling ImmunizeKeys on batches of 1..6 keys while 1..4 adder goroutines HasOrAdd/Put exactly those keys (one adder and one ImmunizeKeys call per key; sometimes a remover and a phantom immunizer that uses up the immune-key budget), then a flood of 3x capacity fresh keys per chunk; a round is non-trivial when both orders (immunized when present / for the future) were observed. wrapper phase: per case one real shardedData (capacity 6..40, 1..4 shards, 2..5 cacheIDs) and one real CrossTxCache driven with AddData/AddTx, immunization of present and future keys incl. cacheIDs that have no store yet, removals, ClearShardStore, MergeShardStores, floods of 6x capacity fresh items; immune and present items are looked up after every operation and after a final flood of every cacheID; non-trivial when at least one immune item was checked after the final flood")
 	r.Assume("\"marked immune\" is taken from the return values of ImmunizeKeys (a refused call returns 0,0 and marks nothing); Remove also drops a pending future immunity; Clear drops everything",
 		"byte bound is read at admission time: per chunk, non-immune bytes minus the size of the most recently admitted item stay below the per-chunk byte limit",
 		"per-chunk limits are read from the cache through the verif hook (never recomputed), so the bounds stay valid if the limits are rounded up",
 		"item sizes are >= 1",
-		"concurrent rounds: the configuration leaves room for every key of the round, so nothing is evicted or refused for lack of space before the flood; a key is in the oracle when its HasOrAdd answered added (Put: it is present when the clients stopped), its ImmunizeKeys call was accepted (numNow+numFuture == len(batch)) and it is not one of the keys handed to the remover; concurrent rounds are not replay-deterministic")
+		"concurrent rounds: the configuration leaves room for every key of the round, so nothing is evicted or refused for lack of space before the flood; a key is in the oracle when its HasOrAdd answered added (Put: it is present when the clients stopped), its ImmunizeKeys call was accepted (numNow+numFuture == len(batch)) and it is not one of the keys handed to the remover; concurrent rounds are not replay-deterministic",
+		"wrapper phase: the wrappers discard the answer of ImmunizeKeys, so a call counts as accepted by the cache's own rule evaluated on its real state right before the call (CountImmune()+len(keys) <= capacity; 0 when the cacheID has no store); AddData's added flag is observed through RegisterOnAdded; MergeShardStores drops the source store with its immunities and re-adds the items to the destination, where only the destination's own immunities protect them")
 	r.MinShapes(30)
 
 	cases := r.N(2500, 60000)
@@ -396,7 +397,7 @@ func main() {
 	// concurrent phase (see concurrent.go): few workers, so that the goroutines of a round really run in parallel
 	concCases := r.N(300, 4000)
 	rounds := r.N(12, 24)
-	if r.ReplayCase < 0 || r.ReplayCase >= cases {
+	if r.ReplayCase < 0 || (r.ReplayCase >= cases && r.ReplayCase < cases+concCases) {
 		r.ParallelW(cases+concCases, 4, func(c *vk.Case) {
 			if c.Idx < cases {
 				return
@@ -405,6 +406,22 @@ func main() {
 				concurrentRound(r, c, round, c.Rng)
 			}
 		})
+	}
+	// wrapper phase (see wrappers.go): the same contract through shardedData and CrossTxCache
+	wrapCases := r.N(600, 12000)
+	wrapOps := r.N(150, 300)
+	firstWrap := cases + concCases
+	if r.ReplayCase < 0 || r.ReplayCase >= firstWrap {
+		r.Parallel(firstWrap+wrapCases, func(c *vk.Case) {
+			if c.Idx < firstWrap {
+				return
+			}
+			shardedDataHistory(r, c, wrapOps)
+			crossTxCacheHistory(r, c, wrapOps)
+		})
+	}
+	if r.ReplayCase < 0 && r.Counter("sd_future_immunity_applied_never_seen_cacheid") < int64(wrapCases/10) {
+		r.Inconclusive("too few items immunized through shardedData before their cacheID had a store")
 	}
 	if r.ReplayCase < 0 && r.Counter("conc_rounds_with_both_orders_observed") < r.Counter("conc_rounds")/10 {
 		r.Inconclusive(fmt.Sprintf("immunize-before-add and add-before-immunize were both observed in only %d of %d concurrent rounds", r.Counter("conc_rounds_with_both_orders_observed"), r.Counter("conc_rounds")))
